@@ -536,7 +536,9 @@ func runC06(r *mon.Run) {
 		"calls are evaluated at the start and re-evaluated after every family; a 'reuse' family replays 10-call histories on recycled " +
 		"operand and destination objects and compares every call with the same call on fresh objects; an 'isolation' family mutates " +
 		"copies (NewWithBigInt, Set, Abs, Neg, Reduce, MathBigInt, SetMathBigInt, Compose/Decompose buffers, results of Context " +
-		"operations) in place and checks that their source is unchanged, and vice versa. distinct_nontrivial = distinct (op, operands, non-zero destination pre-state)."
+		"operations) in place and checks that their source is unchanged, and vice versa; a 'beyond-table' family calls Ln, Log10 and Pow twice " +
+		"each at precisions at and beyond the last tier of the precision-indexed constant tables (1023...3032 digits), compares the two outcomes and " +
+		"takes the shared-state fingerprint after each pair. distinct_nontrivial = distinct (op, operands, non-zero destination pre-state)."
 	r.Assumptions = []string{"relational: apd compared with apd; meaningful fields per form (NaN: sign and payload; Infinity: sign; finite: all fields)"}
 	sharedFP.first = ""
 	sharedFP.checks = 0
@@ -612,6 +614,29 @@ func runC06(r *mon.Run) {
 			checkShared(t, "heavy")
 		}
 	})
+	// precisions at and beyond the last tier of the precision-indexed constant
+	// tables (ln 10 and 1/ln 10 are stored rounded to 1, 2, 4 … 2048 digits and
+	// unrounded): what is handed out there is the shared constant itself
+	beyond := []int64{1023, 1024, 1025, 2045, 2046, 2047, 2048, 2049, 2050, 2100, 2600, 3026, 3029, 3032}
+	r.Parallel("beyond-table", int64(len(beyond)*3), func(t *mon.T) {
+		P := beyond[int(t.Index)%len(beyond)]
+		op := []string{"log10", "ln", "pow"}[int(t.Index)/len(beyond)%3]
+		c := dec.Ctx{P: P, Emin: -100000, Emax: 100000, Mode: "half_even"}
+		x := dec.D{Form: dec.Finite, C: big.NewInt(t.Rng.Range(101, 109)), E: -2}
+		y := dec.D{}
+		if op == "pow" {
+			y = dec.D{Form: dec.Finite, C: big.NewInt(5), E: -1}
+		}
+		first, _, _ := CallAliased(op, br.Context(c, 0), x, y, 0, AliasDistinct, nil)
+		second, _, _ := CallAliased(op, br.Context(c, 0), x, y, 0, AliasDistinct, nil)
+		t.EvalN(2)
+		t.Count("beyond-table/" + op)
+		if why := compareOutcomes(op, first, second); why != "" {
+			t.Fail("outcome-depends-on-history", map[string]interface{}{"op": op, "precision": P, "x": x.FullString(), "why": "the same call repeated gives a different answer: " + why})
+		}
+		checkShared(t, "beyond-table")
+	})
+	recheck("after-beyond-table")
 	recheck("end")
 	r.Extra("shared_state_fingerprints_taken", sharedFP.checks)
 	r.Extra("shared_state_items", sharedFP.items)
